@@ -24,7 +24,10 @@
      `nodeAt_below_leaf_none`
   C. count: `trackedCount_run`, `trackedCount_run_gen`, `trackedCount_eq_numLeaves_sub_dels`
   D. `calculatePosition` (the second half of `GetLeafPosition`): `calculatePosition_node`,
-     `getLeafPosition_calculatePosition`, `roots_distinct`
+     `getLeafPosition_calculatePosition`, `roots_distinct` (under `CR H`), and
+     `getLeafPosition_calculatePosition_nd`, `roots_distinct_nd` (under `NZ H` and the finite,
+     decidable `NodesDistinct F` of `Proofs/NodesUnique.lean` — `CR H` is impossible for a finite
+     hash type; the Go code tells trees apart by their root hashes, so some such hypothesis is needed)
 -/
 import UtreexoVerif.Proofs.PollardLookup
 import UtreexoVerif.Proofs.PollardCalcPos
@@ -375,6 +378,27 @@ theorem getLeafPosition_calculatePosition (cr : CR H) (F : Forest H) (hn : F.num
       calculatePosition F (nieceFlags path) t.hash = (pollardGetLeafPosition F h).1 ∧
       (pollardGetLeafPosition F h).2 = true :=
   PollardCalcPos.getLeafPosition_calculatePosition cr F hn hnd hleaf hl
+
+/-- **distinct roots from a finite hypothesis**: if no non-zero hash sits at two places of `F`
+(`Spec.NodesDistinct F` — decidable, about this forest only, no assumption on the hash function)
+a non-empty tree's root hash differs from every other tree's -/
+theorem roots_distinct_nd (F : Forest H) (hn : F.numLeaves < 2 ^ 64) (hd : NodesDistinct F)
+    {R R' : Nat} (hb : F.numLeaves.testBit R = true) (hb' : F.numLeaves.testBit R' = true)
+    (hne : R' ≠ R) (hz : treeRoot F R ≠ zero) : treeRoot F R' ≠ treeRoot F R :=
+  PollardCalcPos.roots_distinct_nd F hn hd hb hb' hne hz
+
+/-- **`GetLeafPosition` = `NodeMap` look-up + `calculatePosition`, for hashes that are not
+collision-free**: the same conclusion from `NZ H` (parent hashes are never zero), non-zero
+pairwise distinct live leaves and `NodesDistinct F`.  Satisfiable over finite hash types
+(`Props/NZ.lean`). -/
+theorem getLeafPosition_calculatePosition_nd (nz : NZ H) (F : Forest H) (hn : F.numLeaves < 2 ^ 63)
+    (hnd : F.liveLeaves.Nodup) (hleaf : ∀ x ∈ F.liveLeaves, x ≠ (zero : H))
+    (hd : NodesDistinct F) {h : H} (hl : h ∈ F.liveLeaves) :
+    ∃ R t path, R ∈ treeRows F.numLeaves ∧ treeOf F R = some t ∧
+      childPath t path = some (.leaf h) ∧
+      calculatePosition F (nieceFlags path) t.hash = (pollardGetLeafPosition F h).1 ∧
+      (pollardGetLeafPosition F h).2 = true :=
+  PollardCalcPos.getLeafPosition_calculatePosition_nd nz F hn hnd hleaf hd hl
 
 end
 
